@@ -209,7 +209,7 @@ def run_normalize(case):
     from cnfgen.formula.baseopb import normalize_opb
     from cnfgen.formula.opb import OPB
     nv = case['nv']
-    terms = [tuple(t) for t in case['terms']]
+    terms = [tuple(t) for t in case['terms']] if case.get('pairs', 'tuple') == 'tuple' else [list(t) for t in case['terms']]
     op, d = case['op'], case['d']
     cons = list(terms) + [op, d]
     snapshot = list(cons)
@@ -256,7 +256,7 @@ def strat_normalize(draw):
                                     st.integers(1, nv).flatmap(lambda v: st.sampled_from([v, -v]))),
                           max_size=5))
     return {'nv': nv, 'terms': [list(t) for t in terms], 'op': draw(st.sampled_from(IN_OPS)),
-            'd': draw(st.integers(-9, 14)), 'check': draw(st.booleans())}
+            'd': draw(st.integers(-9, 14)), 'check': draw(st.booleans()), 'pairs': draw(st.sampled_from(['tuple', 'tuple', 'list']))}
 
 
 def enum_normalize(tier):
@@ -470,4 +470,129 @@ SUBCHECKS = [
              quick=600, thorough=20000,
              rule="new_mapping(n,m) n<=3,m<=4; new_binary_mapping n<=4,m<=8; every sparse mapping on <=2x2 (thorough 3x3) bipartite graphs; one force_* call each, CNF and OPB; oracle: relation decoded via to_index, functional condition evaluated on all assignments; non-trivial: n>=2 and m>=2",
              required_labels=['unary', 'sparse', 'binary', 'm-not-power-of-two', 'zero-bits', 'empty-side'] + FORCES),
+]
+
+
+# ---------------------------------------------------------------------------
+# several builder calls on one formula (state kept between calls must not matter) and long literal lists
+
+def run_sequence(case):
+    """the conjunction of several constraints added to the SAME formula"""
+    clsname, nv = case['cls'], case['nv']
+    F = _mk(clsname)
+    F.update_variable_number(nv)
+    want = tt.full(nv)
+    for (method, lits, op, const, kind) in case['calls']:
+        if clsname == 'OPB' and method == 'add_linear':
+            method, op = {'<=': 'cardinality_leq', '>=': 'cardinality_geq', '==': 'cardinality_eq', '!=': 'cardinality_neq',
+                          '<': 'cardinality_leq', '>': 'cardinality_geq'}[op], None
+            if case['calls'] and False:
+                pass
+        arg = _container(kind, lits)
+        m = getattr(F, method)
+        if method == 'add_linear':
+            m(arg, op, const)
+        elif method == 'add_parity' or method.startswith('cardinality_'):
+            m(arg, const)
+        else:
+            m(arg)
+        want &= _reference(nv, method, lits, op, const)
+    got = tt.formula_tt(F)
+    if F.number_of_variables() != nv:
+        raise Violation("sequence {}: variable count changed".format(case))
+    if got != want:
+        a = tt.first_row(got ^ want)
+        raise Violation("{} after the calls {}: assignment {} is {} by the formula but the conjunction of the stated constraints is {}".format(
+            clsname, case['calls'], tt.row_assignment(nv, a), 'accepted' if (got >> a) & 1 else 'rejected', bool((want >> a) & 1)))
+    return Outcome(labels=[clsname, 'calls={}'.format(min(len(case['calls']), 3))], nontrivial=len(case['calls']) >= 2)
+
+
+@st.composite
+def strat_sequence(draw):
+    nv = draw(st.integers(1, 5))
+    clsname = draw(st.sampled_from(['CNF', 'OPB']))
+    calls = []
+    base = draw(st.lists(st.integers(1, nv).flatmap(lambda v: st.sampled_from([v, -v])), min_size=1, max_size=4))
+    for _ in range(draw(st.integers(2, 4))):
+        # literal lists that share the same set of literals but differ in order / multiplicity are the interesting ones
+        how = draw(st.sampled_from(['same', 'perm', 'dup', 'fresh']))
+        if how == 'same':
+            lits = list(base)
+        elif how == 'perm':
+            lits = list(draw(st.permutations(base)))
+        elif how == 'dup':
+            lits = list(base) + [draw(st.sampled_from(base))]
+        else:
+            lits = draw(st.lists(st.integers(1, nv).flatmap(lambda v: st.sampled_from([v, -v])), max_size=4))
+        method = draw(st.sampled_from(METHODS if clsname == 'CNF' else METHODS[1:]))
+        need_op, need_const = _needs(method)
+        op = draw(st.sampled_from(OPS)) if need_op else None
+        const = draw(st.integers(0, 1)) if method == 'add_parity' else (draw(st.integers(-1, len(lits) + 1)) if need_const else None)
+        calls.append([method, lits, op, const, draw(st.sampled_from(['list', 'tuple', 'generator']))])
+    return {'cls': clsname, 'nv': nv, 'calls': calls}
+
+
+def run_long(case):
+    """long literal lists: evaluated on a batch of random assignments (2^n rows are out of reach)"""
+    import random as _r
+    clsname, method, L, const, op = case['cls'], case['method'], case['L'], case['const'], case.get('op')
+    R = _r.Random(case['rseed'])
+    nv = L + 1
+    lits = [v if R.random() < 0.7 else -v for v in range(1, L + 1)]
+    F = _mk(clsname)
+    F.update_variable_number(nv)
+    arg = _container(case['container'], lits)
+    m = getattr(F, method)
+    if method == 'add_linear':
+        m(arg, op, const)
+    elif method == 'add_parity' or method.startswith('cardinality_'):
+        m(arg, const)
+    else:
+        m(arg)
+    rows = []
+    for _ in range(400):
+        # assignments whose count of true literals is near the threshold, plus arbitrary ones
+        k = R.choice([const, const, const - 1, const + 1, R.randint(0, L)]) if isinstance(const, int) and method != 'add_parity' else R.randint(0, L)
+        k = max(0, min(L, k))
+        true_lits = set(R.sample(range(L), k))
+        rows.append(frozenset(abs(l) for i, l in enumerate(lits) if (i in true_lits) == (l > 0)))
+    B = tt.Batch(nv, rows)
+    got = tt.formula_tt(F, B)
+    want = _reference(B, method, lits, op, const)
+    if got != want:
+        a = tt.first_row(got ^ want)
+        raise Violation("{}.{} on {} literals (op={}, const={}): assignment with true variables {} is {} by the formula but the arithmetic says {}".format(
+            clsname, method, L, op, const, sorted(B.rows[a]), 'accepted' if (got >> a) & 1 else 'rejected', bool((want >> a) & 1)))
+    return Outcome(labels=[clsname, method, 'L>=16' if L >= 16 else 'L<16'], nontrivial=True)
+
+
+def enum_long(tier):
+    i = 0
+    for clsname in ('CNF', 'OPB'):
+        for L in ((9, 12, 16, 17) if tier == 'quick' else (9, 10, 12, 15, 16, 17, 18)):
+            for const in (0, 1):
+                i += 1
+                yield {'cls': clsname, 'method': 'add_parity', 'L': L, 'const': const, 'container': CONTAINERS[i % 3], 'rseed': i}
+            for method, op in (('add_linear', '>='), ('add_linear', '<'), ('add_linear', '=='), ('add_linear', '!='),
+                               ('cardinality_leq', None), ('add_loose_majority', None), ('add_strict_minority', None)):
+                if clsname == 'OPB' and method == 'add_linear':
+                    continue
+                for const in (1, 2, L - 1, L // 2):
+                    if method.startswith('add_l') and method != 'add_linear' or method.startswith('add_s'):
+                        const = None
+                    elif (L > 12 and 2 < const < L - 2 and clsname == 'CNF'):
+                        continue                      # C(L, L/2) clauses: skip the middle for long lists
+                    i += 1
+                    yield {'cls': clsname, 'method': method, 'op': op, 'L': L, 'const': const, 'container': CONTAINERS[i % 3], 'rseed': i}
+                    if const is None:
+                        break
+
+
+SUBCHECKS += [
+    SubCheck('sequence', run_sequence, strategy=strat_sequence, quick=1500, thorough=60000,
+             rule="2..4 builder calls on the same formula, with literal lists that are equal, permuted, or differ only in multiplicity; oracle: the formula is the conjunction of the stated constraints on all assignments (<=5 variables); non-trivial: >=2 calls",
+             required_labels=['CNF', 'OPB']),
+    SubCheck('long', run_long, enumerate_cases=enum_long,
+             rule="parity over 9..17 (thorough 18) literals and threshold/majority constraints over 9..17 literals with constants near the ends, CNF and OPB; oracle: formula and arithmetic agree on a batch of 400 assignments concentrated around the threshold (bit-parallel on the batch); non-trivial: all",
+             required_labels=['L>=16', 'add_parity']),
 ]
